@@ -105,8 +105,11 @@ def sha(*texts):
 class Unit:
     """one (world, option set): generated bindings + harness file + harness descriptors"""
 
-    def __init__(self, world, osn):
+    def __init__(self, world, osn, lmax=2):
         self.world, self.osn = world, osn
+        # nested heap values (list<string>, list<list<u8>>, list<record{string}>) keep the bound 2 in every tier:
+        # measured: with bound 3 the CBMC instance of such a world exceeds the 120 s cap (SAT instance > 2M clauses)
+        self.lmax = lmax if world.heap_depth() <= 1 else min(lmax, 2)
         self.opts = wit.OPTION_SETS[osn]
         self.dir = os.path.join(WORK, "gen", osn, world.type_class)
         self.harness_c = os.path.join(self.dir, "harness.c")
@@ -117,7 +120,8 @@ class Unit:
         self.native_exe = None
 
 
-def generate_unit(u: Unit, lmax):
+def generate_unit(u: Unit, lmax=None):
+    lmax = u.lmax
     shutil.rmtree(u.dir, ignore_errors=True)
     os.makedirs(u.dir, exist_ok=True)
     wpath = os.path.join(u.dir, "w.wit")
@@ -141,19 +145,31 @@ def generate_unit(u: Unit, lmax):
 # --------------------------------------------------------------------------
 # deciding
 # --------------------------------------------------------------------------
-def entry_of(prop_id):
-    return "h_all_c10" if prop_id == "C10" else "h_all_c11"
-
-
 def members_of(u, prop_id):
     return [h for h in u.hs if not (prop_id == "C10" and h["direction"] == "free-helper")]
 
 
+def entries_of(u, prop_id):
+    """[(cbmc entry function, [harnesses it runs])].  Worlds without heap values: one run decides every harness (a nondet
+    selector picks one; the CBMC front end is paid once).  Worlds with strings/lists: one run per harness (the SAT
+    instance of the merged program grows faster than the sum of its parts)."""
+    ms = members_of(u, prop_id)
+    if not ms:
+        return []
+    if u.world.uses("list") or u.world.uses("string"):
+        return [(h["name"], [h]) for h in ms]
+    return [("h_all_c10" if prop_id == "C10" else "h_all_c11", ms)]
+
+
+def defines_of(prop_id):
+    return ["CGEN_NO_C10"] if prop_id == "C11" else []
+
+
 def run_job(job):
-    u, prop_id, unwind = job
-    log = os.path.join(u.dir, "%s.cbmc.log" % entry_of(prop_id))
-    rc, txt, dt, cmd = runc.run_cbmc(u.harness_c, entry_of(prop_id), unwind, timeout=CBMC_TIMEOUT, mem_gb=CBMC_MEM_GB, log=log)
-    return {"unit": u, "rc": rc, "txt": txt, "dt": dt, "cmd": cmd, "res": runc.parse_results(txt)}
+    u, entry, members, unwind, defines = job
+    log = os.path.join(u.dir, "%s.cbmc.log" % entry)
+    rc, txt, dt, cmd = runc.run_cbmc(u.harness_c, entry, unwind, timeout=CBMC_TIMEOUT, mem_gb=CBMC_MEM_GB, log=log, defines=defines)
+    return {"unit": u, "entry": entry, "members": members, "rc": rc, "txt": txt, "dt": dt, "cmd": cmd, "res": runc.parse_results(txt)}
 
 
 def aclass_key(s):
@@ -167,17 +183,15 @@ def label_direction(p):
     return None
 
 
-def replay_failure(out, u, p, prop_id, acls, unwind):
+def replay_failure(out, u, entry, members, p, prop_id, acls, unwind):
     """-> (how, inputs, harness descriptor, native info) or None (then an inconclusive entry was added)"""
     out.disagreements_checked += 1
     tag = "%s/%s" % (u.osn, u.world.type_class)
-    entry = entry_of(prop_id)
-    members = members_of(u, prop_id)
     rc, txt, dt, cmd = runc.run_cbmc(u.harness_c, entry, unwind, timeout=CBMC_TIMEOUT * 2, mem_gb=CBMC_MEM_GB,
-                                     prop=p["id"], trace=True, log=os.path.join(u.dir, "trace.%s.log" % aclass_key(acls)))
+                                     prop=p["id"], trace=True, log=os.path.join(u.dir, "trace.%s.log" % aclass_key(acls)), defines=defines_of(prop_id))
     out.queries += 1
     out.solver_s += dt
-    sel = runc.trace_selector(txt)
+    sel = runc.trace_selector(txt) if len(members) > 1 else 0
     if sel is None or sel >= len(members):
         out.inconclusive.append("%s: `%s` fails in cbmc but the trace does not show which harness ran" % (tag, p["desc"][:80]))
         return None
@@ -216,7 +230,7 @@ def replay_failure(out, u, p, prop_id, acls, unwind):
                     "(pointer width 8)"), ins, h, native
     # 2. cbmc with the inputs fixed as constants
     runc.write_fixed_inputs(u.dir, 4096, ins, sel)
-    rc2, txt2, dt2, cmd2 = runc.run_cbmc(u.harness_c, entry, unwind, timeout=CBMC_TIMEOUT * 2, mem_gb=CBMC_MEM_GB, defines=["CGEN_FIXED"],
+    rc2, txt2, dt2, cmd2 = runc.run_cbmc(u.harness_c, entry, unwind, timeout=CBMC_TIMEOUT * 2, mem_gb=CBMC_MEM_GB, defines=["CGEN_FIXED"] + defines_of(prop_id),
                                          log=os.path.join(u.dir, "fixed.%s.log" % aclass_key(acls)))
     out.queries += 1
     out.solver_s += dt2
@@ -236,7 +250,8 @@ def sig_text(w):
 
 def decide(out, prop_id, tier, units, lmax, samples):
     unwind = lmax + 2
-    jobs = [(u, prop_id, unwind) for u in units if u.same_as is None and members_of(u, prop_id)]
+    jobs = [(u, entry, ms, u.lmax + 2, defines_of(prop_id)) for u in units if u.same_as is None for entry, ms in entries_of(u, prop_id)]
+    jobs.sort(key=lambda j: (0 if len(j[2]) == 1 else 1, -max(h["nin"] for h in j[2])))      # long-running first
     t0 = time.time()
     with concurrent.futures.ThreadPoolExecutor(max_workers=JOBS) as ex:
         results = list(ex.map(run_job, jobs))
@@ -249,7 +264,7 @@ def decide(out, prop_id, tier, units, lmax, samples):
     slow = []
     for r in results:
         u = r["unit"]
-        tag = "%s/%s" % (u.osn, u.world.type_class)
+        tag = "%s/%s %s" % (u.osn, u.world.type_class, r["entry"])
         out.queries += 1
         out.solver_s += r["dt"]
         slow.append((round(r["dt"], 1), tag))
@@ -259,7 +274,8 @@ def decide(out, prop_id, tier, units, lmax, samples):
             tail = " ".join(r["txt"].strip().splitlines()[-3:])[:240]
             out.inconclusive.append("%s: cbmc did not complete (%s): %s" % (tag, why, tail))
             continue
-        members = members_of(u, prop_id)
+        members = r["members"]
+        tag = "%s/%s %s" % (u.osn, u.world.type_class, r["entry"])
         ends = {p["fn"]: p["status"] for p in res if p["desc"] == "REACH|end of harness"}
         vacuous = [h["name"] for h in members if ends.get(h["name"]) != "FAILURE"]
         other_reach = [p for p in res if runc.classify(p)[0] == "REACH" and p["status"] != "FAILURE"]
@@ -269,7 +285,7 @@ def decide(out, prop_id, tier, units, lmax, samples):
         bad_unwind = [p for p in res if runc.classify(p)[0] == "UNWIND" and p["status"] != "SUCCESS"]
         if bad_unwind:
             out.inconclusive.append("%s: unwinding assertion not discharged (bound %d too small or a length is corrupted): %s line %s"
-                                    % (tag, unwind, bad_unwind[0]["fn"], bad_unwind[0]["line"]))
+                                    % (tag, u.lmax + 2, bad_unwind[0]["fn"], bad_unwind[0]["line"]))
         mine = [p for p in res if runc.classify(p)[0] == prop_id]
         other = [p for p in res if runc.classify(p)[0] in ("C10", "C11") and runc.classify(p)[0] != prop_id and p["status"] == "FAILURE"]
         if other:
@@ -290,7 +306,7 @@ def decide(out, prop_id, tier, units, lmax, samples):
                 key = (acls, label_direction(p))
                 if key not in seen_cls:
                     seen_cls.add(key)
-                    failed.append((u, p, acls))
+                    failed.append((u, p, acls, r["entry"], members))
             else:
                 out.inconclusive.append("%s: property %s has status %s" % (tag, p["id"], p["status"]))
         if nfail == 0 and len(samples) < 12 and len([s for s in samples if s.get("group") == u.world.group]) < 1:
@@ -308,11 +324,12 @@ def decide(out, prop_id, tier, units, lmax, samples):
     by_role = {}
     # one replay per (type class, class, labelled direction): the first option set that shows it; further option sets are listed
     groups = {}
-    for u, p, acls in failed:
-        groups.setdefault((u.world.type_class, acls, label_direction(p)), []).append((u, p))
+    for u, p, acls, entry, members in failed:
+        ld = label_direction(p) or (members[0]["direction"] if len(members) == 1 else None)
+        groups.setdefault((u.world.type_class, acls, ld), []).append((u, p, entry, members))
     for (cls, acls, _ld), items in sorted(groups.items(), key=lambda kv: (kv[0][0], kv[0][1], kv[0][2] or "")):
-        u, p = items[0]
-        rep = replay_failure(out, u, p, prop_id, acls, unwind)
+        u, p, entry, members = items[0]
+        rep = replay_failure(out, u, entry, members, p, prop_id, acls, u.lmax + 2)
         if rep is None:
             continue
         how, ins, h, native = rep
@@ -326,10 +343,10 @@ def decide(out, prop_id, tier, units, lmax, samples):
         payload = {
             "engine": "cgen", "property": prop_id, "world": cls, "wit": u.world.wit_text(), "signature": sig_text(u.world),
             "function": h["function"], "direction": direction, "harness": h["name"], "option_set": u.osn, "options": u.opts,
-            "option_sets_failing": osns, "list_length_bound": lmax, "unwind": unwind,
+            "option_sets_failing": osns, "list_length_bound": u.lmax, "unwind": u.lmax + 2,
             "inputs": ["0x%x" % v for v in ins], "input_layout": h.get("input_doc"),
             "failed_assertion": {"id": p["id"], "description": p["desc"], "class": acls, "file": p["file"], "function": p["fn"], "line": p["line"]},
-            "cbmc_cmd": " ".join(runc.cbmc_cmd(u.harness_c, h["name"], unwind)), "replay": how, "native": native,
+            "cbmc_cmd": " ".join(runc.cbmc_cmd(u.harness_c, h["name"], u.lmax + 2, defines_of(prop_id))), "replay": how, "native": native,
             "how_to_replay": "/verif/check %s --replay <this file>" % prop_id,
         }
         path = vlib.write_replay(prop_id, "cgen_%s_%s_%s" % (direction, cls, aclass_key(acls)), payload)
@@ -349,8 +366,9 @@ def base_outcome(prop_id, tier):
     out.bounds = {
         "worlds": "enumerated (cgen/wit.py corpus(%s)): one world per type class, each with an imported and an exported `f`" % tier,
         "values": "every C value / every reference-encoded core argument and return area: nondet (all bit patterns; floats as bit patterns incl. NaN payloads)",
-        "list_string_length": "nondet <= %d; contents nondet" % lmax,
-        "unwind": "%d with --unwinding-assertions" % (lmax + 2),
+        "list_string_length": "nondet <= %d (<= 2 for nested heap values such as list<string>, list<list<u8>>: measured, bound 3 exceeds the 120 s cap); "
+                              "contents nondet" % lmax,
+        "unwind": "length bound + 2 with --unwinding-assertions",
         "data_layout": "cbmc --32 --little-endian: sizeof(void*) == 4, uint64_t 8-aligned (wasm32)",
         "option_sets": wit.option_sets(tier),
         "cbmc_limits": "%d s / %d GB per harness, %d parallel" % (CBMC_TIMEOUT, CBMC_MEM_GB, JOBS),
@@ -372,7 +390,8 @@ def base_outcome(prop_id, tier):
         "gcc -m64 -fsanitize=address for native replays",
     ]
     out.assumptions = [
-        "values: bool in {0,1}, char is a Unicode scalar value, enum/variant discriminants < number of cases, flags have only defined bits, list lengths <= bound",
+        "values: bool in {0,1}, char is a Unicode scalar value, enum/variant discriminants < number of cases, flags have only defined bits, list lengths <= bound, "
+        "handle indices != 0 (index 0 of a canonical-ABI handle table is reserved)",
         "the host encodes exactly what the specification's lowering produces (zero padding of unused variant slots, zero-extended joins)",
         "host allocations go through the generated cabi_realloc; malloc never returns NULL",
         "an empty list/string owns no heap block (C backend README: `len == 0` => nothing to free)",
@@ -384,12 +403,18 @@ def base_outcome(prop_id, tier):
 def prepare_units(out, tier, lmax, only=None):
     worlds = wit.corpus(tier)
     osns = wit.option_sets(tier)
+    only_env = os.environ.get("CGEN_ONLY")
+    if only_env:       # debugging aid (mutation self-test): restrict the corpus; such a run is never a success
+        import fnmatch
+        pats = [x for x in only_env.split(",") if x]
+        worlds = [w for w in worlds if any(fnmatch.fnmatch(w.type_class, p) for p in pats)]
+        out.inconclusive.append("corpus restricted by CGEN_ONLY=%s (debug run: %d worlds)" % (only_env, len(worlds)))
     units = []
     for w in worlds:
         for osn in osns:
             if only and (w.type_class, osn) not in only:
                 continue
-            units.append(Unit(w, osn))
+            units.append(Unit(w, osn, lmax))
     t0 = time.time()
     with concurrent.futures.ThreadPoolExecutor(max_workers=JOBS) as ex:
         list(ex.map(lambda u: generate_unit(u, lmax), units))
@@ -450,15 +475,16 @@ def replay(prop_id, path):
     if world is None:
         print("INCONCLUSIVE world %s is not in the corpus any more" % r["world"])
         return 2
-    u = generate_unit(Unit(world, r["option_set"]), lmax)
+    u = Unit(world, r["option_set"], lmax)
+    u.lmax = lmax
+    u = generate_unit(u)
     h = next((x for x in u.hs if x["name"] == r["harness"]), None)
     if u.problems or h is None:
         print("INCONCLUSIVE cannot regenerate the harness: %s" % u.problems)
         return 2
     ins = [int(x, 16) for x in r["inputs"]]
-    members = members_of(u, prop_id)
-    runc.write_fixed_inputs(u.dir, 4096, ins, members.index(h))
-    rc, txt, dt, cmd = runc.run_cbmc(u.harness_c, entry_of(prop_id), lmax + 2, timeout=CBMC_TIMEOUT * 2, mem_gb=CBMC_MEM_GB, defines=["CGEN_FIXED"])
+    runc.write_fixed_inputs(u.dir, 4096, ins, 0)
+    rc, txt, dt, cmd = runc.run_cbmc(u.harness_c, h["name"], lmax + 2, timeout=CBMC_TIMEOUT * 2, mem_gb=CBMC_MEM_GB, defines=["CGEN_FIXED"] + defines_of(prop_id))
     res = runc.parse_results(txt)
     if rc not in (0, 10) or not res:
         print("INCONCLUSIVE cbmc did not complete (rc=%s)" % rc)
